@@ -131,11 +131,6 @@ def run_frame(it, st, T, op):
         from .c05 import assume_concrete
         assume_concrete(it, st, vals)          # C05's domain (concrete Sid, A-path-norm); search Sids have no single path
         if not st.feasible(): return 'ok'
-    if T is not None:
-        # the object goes through the real TypedSid._init (as the factory does), so attributes a constructor adds exist here too
-        try: init = it.getattr(x, '_init')
-        except Raised: init = None
-        if init is not None: it.call(init, [x.attrs['_string'], x.attrs['_type'], x.attrs['_fields']], {})
     before = (x.attrs['_type'], x.attrs['_string'], x.attrs['_fields'], [(k, v) for k, v in x.attrs['_fields'].items])
     keys = [k for k, _ in vals]
     it.urlsafe_vars = {a.name for _, v in vals for a in st.norm(v).atoms if isinstance(a, Var)}
